@@ -106,6 +106,8 @@ def enumerate_cases(tier, seed):
     for lo in range(0, len(mol_s), step):
         yield ("strings", {"level": "mol", "strings": mol_s[lo : lo + step]})
         yield ("strings", {"level": "sys", "strings": mol_s[lo : lo + step]})
+    for level, lst in G.number_strings().items():
+        yield ("strings", {"level": level, "strings": [x[0] for x in lst]})
     fam = fam_texts(tier, seed)
     step = 12
     for lo in range(0, len(fam), step):
